@@ -3323,10 +3323,18 @@ class Any(OctetString):
             return self._tagMap
 
         except AttributeError:
+            if self.tagSet:
+                # a tagged ANY is identified by its tag like any other type
+                defaultType = None
+
+            else:
+                # only an untagged ANY stands for every tag
+                defaultType = self
+
             self._tagMap = tagmap.TagMap(
                 {self.tagSet: self},
                 {eoo.endOfOctets.tagSet: eoo.endOfOctets},
-                self
+                defaultType
             )
 
             return self._tagMap
